@@ -20,6 +20,8 @@ use syn::*;
 
 thread_local! {
     static CFG_UNKNOWN: RefCell<Vec<String>> = RefCell::new(Vec::new());
+    /// last path segments of traits whose impls are not emitted (--skip-impl-of a,b,c)
+    static SKIP_IMPLS: RefCell<Vec<String>> = RefCell::new(Vec::new());
 }
 
 fn line(sp: Span) -> usize {
@@ -569,6 +571,12 @@ fn item_json(i: &Item) -> Option<Value> {
             if !cfg_keep(&im.attrs) {
                 return None;
             }
+            if let Some((_, p, _)) = &im.trait_ {
+                let last = p.segments.last().map(|s| s.ident.to_string()).unwrap_or_default();
+                if SKIP_IMPLS.with(|s| s.borrow().contains(&last)) {
+                    return None;
+                }
+            }
             let mut items = Vec::new();
             for it in &im.items {
                 match it {
@@ -707,7 +715,11 @@ fn main() {
     let mut files = Map::new();
     let mut i = 2;
     while i < args.len() {
-        if args[i] == "--crate" {
+        if args[i] == "--skip-impl-of" {
+            let v: Vec<String> = args[i + 1].split(',').map(|x| x.to_string()).collect();
+            SKIP_IMPLS.with(|s| *s.borrow_mut() = v);
+            i += 2;
+        } else if args[i] == "--crate" {
             let (name, dir) = args[i + 1].split_once('=').expect("name=dir");
             let dirp = PathBuf::from(dir);
             let mut fl = Vec::new();
